@@ -92,6 +92,57 @@ theorem closed_run_bounded (c : Cfg) (hc : c.legacy = false) :
         simp at hm ⊢
         omega
 
+/-- a run made of goroutine steps only is no longer than the measure of its first state -/
+theorem internal_run_bounded (c : Cfg) :
+    ∀ (es : List Ev) (s s' : St), (∀ e ∈ es, internal e = true) → run c s es = some s' →
+      es.length + measure s' ≤ measure s := by
+  intro es
+  induction es with
+  | nil => intro s s' _ hr; simp [run] at hr; subst hr; simp
+  | cons e es ih =>
+    intro s s' hall hr
+    simp only [run] at hr
+    cases hs : step c s e with
+    | none => simp [hs] at hr
+    | some s1 =>
+      simp only [hs] at hr
+      have h1 := internal_step_decreases c s e s1 (hall e (by simp)) hs
+      have h2 := ih s1 s' (fun e he => hall e (by simp [he])) hr
+      simp only [List.length_cons]
+      omega
+
+/-- goroutine steps neither accept blocks nor stop the pipeline -/
+theorem internal_step_keeps (c : Cfg) (s : St) (e : Ev) (s' : St)
+    (hi : internal e = true) (hs : step c s e = some s') :
+    s'.subs = s.subs ∧ s'.cancelled = s.cancelled ∧ s'.counter = s.counter := by
+  cases e
+  all_goals try (simp [internal] at hi; done)
+  all_goals
+    simp only [step, fwdStep] at hs
+    repeat' split at hs
+  all_goals try (simp at hs; done)
+  all_goals
+    try injection hs with hs
+    subst hs
+    simp
+
+theorem internal_run_keeps (c : Cfg) :
+    ∀ (es : List Ev) (s s' : St), (∀ e ∈ es, internal e = true) → run c s es = some s' →
+      s'.subs = s.subs ∧ s'.cancelled = s.cancelled ∧ s'.counter = s.counter := by
+  intro es
+  induction es with
+  | nil => intro s s' _ hr; simp [run] at hr; subst hr; simp
+  | cons e es ih =>
+    intro s s' hall hr
+    simp only [run] at hr
+    cases hs : step c s e with
+    | none => simp [hs] at hr
+    | some s1 =>
+      simp only [hs] at hr
+      obtain ⟨a1, a2, a3⟩ := internal_step_keeps c s e s1 (hall e (by simp)) hs
+      obtain ⟨b1, b2, b3⟩ := ih s1 s' (fun e he => hall e (by simp [he])) hr
+      exact ⟨b1.trans a1, b2.trans a2, b3.trans a3⟩
+
 /-- structural facts needed for progress -/
 structure WF (c : Cfg) (s : St) : Prop where
   no_validate : c.validate = false → s.midCh = [] ∧ s.valW = []
